@@ -571,6 +571,7 @@ theorem flag_startTop {s : St} (hi : Idle s) (hw : s.wq = []) (hst : s.stack = [
     refine flag_idle_all (by exact hi) (by simp [St.push, St.emit, hw]) ?_
     simp only [St.push, St.emit, hst]
     intro g hg; simp at hg; rcases hg with rfl | rfl <;> exact ⟨trivial, rfl⟩
+  case clearTrackers => exact flag_idle_all (by exact hi) (by simp [St.emit, hw]) (by simp [St.emit, hst]; exact allOK_nil)
   case wSysEvent sys ty pid => exact hcmd _ _ rfl (by exact hi) (by simp [St.emit, St.fresh, hw]) (by simp [St.emit, St.fresh, hst])
   case wBroadcast ty pid => exact hcmd _ _ rfl (by exact hi) (by simp [St.emit, hw]) (by simp [St.emit, hst])
   case wEntityEvent e ty pid => exact hcmd _ _ rfl (by exact hi) (by simp [St.emit, hw]) (by simp [St.emit, hst])
